@@ -1364,6 +1364,67 @@ def _fails_at_eof(call: ast.Call) -> bool:
     return False
 
 
+def r16_16(rep: Report) -> None:
+    """R16.16  BufferedReader.peek() - the reader every media segment request parses through - starts with
+    `assert size > 0` (premise, re-read on every run).  A parser that peeks at a payload must therefore do so only
+    on paths that imply a positive length: a box without payload (an 8-byte `free` padding box inside a fragment)
+    otherwise ends the request with an AssertionError, HTTP 500.  Every `<src>.peek(E)` outside the reader class is
+    reached only where the path condition implies E > 0 (E != 0, not E <= 0, E >= 1 or E is true)."""
+    from ..flow import Disjunctive, Flow
+    from ..pathcond import PathCond, entails as pc_entails, f_not, show as pc_show
+    rid = 'R16.16'
+    brel = 'dashlive/utils/buffered_reader.py'
+    bt = rep.repo.tree(brel)
+    bc = need(find_class(bt, 'BufferedReader'), 'BufferedReader')
+    pk = need(find_func(bc, 'peek', raw=True) or find_func(bc, 'peek'), 'BufferedReader.peek')
+    par = [a.arg for a in pk.args.args if a.arg != 'self']
+    premise = any(isinstance(x, ast.Assert) and par and norm(x.test) in (f'{par[0]} > 0', f'{par[0]} >= 1', f'0 < {par[0]}')
+                  for x in pk.body[:4])
+    if not premise:
+        rep.ok(rid, f'{brel}::BufferedReader.peek', 'precondition', 'peek() no longer asserts a positive size: nothing to show')
+        return
+    n = 0
+    for rel in rep.repo.py_files('dashlive'):
+        if rel == brel or '.peek(' not in rep.repo.source(rel):
+            continue
+        for cls_, fn in rep.repo.expanded_functions(rel):
+            def peeks(st):
+                return [c for c in ast.walk(st) if isinstance(c, ast.Call) and isinstance(c.func, ast.Attribute)
+                        and c.func.attr == 'peek' and len(c.args) == 1 and not c.keywords]
+            if not peeks(fn):
+                continue
+            construct = f'{rel}::{(cls_.name + ".") if cls_ else ""}{fn.name}'
+            at: dict[int, list] = {}
+
+            def on_stmt(st, states, at=at):
+                if isinstance(st, (ast.If, ast.While, ast.For, ast.Try, ast.With)):
+                    return
+                if peeks(st):
+                    at.setdefault(id(st), [st, []])[1].extend(states)
+            Flow(Disjunctive(PathCond(), cap=64), on_stmt=on_stmt).run(fn, [PathCond.initial()])
+            for st, states in at.values():
+                for c in peeks(st):
+                    e = norm(c.args[0])
+                    n += 1
+                    key = f'{norm(c.func.value)}.peek({e[:40]})'
+                    if isinstance(c.args[0], ast.Constant) and isinstance(c.args[0].value, int) and c.args[0].value > 0:
+                        rep.ok(rid, construct, key, 'constant positive length')
+                        continue
+                    goals = [('atom', f'{e} > 0'), ('atom', f'{e} >= 1'), ('atom', e), f_not(('atom', f'{e} == 0')),
+                             f_not(('atom', f'{e} <= 0')), f_not(('atom', f'{e} < 1')), ('atom', f'0 < {e}')]
+                    bad = [x for x in states if not any(pc_entails(x[0], g) is True for g in goals)]
+                    if states and not bad:
+                        rep.ok(rid, construct, key, f'only where {e} is positive')
+                    else:
+                        rep.fail(rid, construct, key,
+                                 f'`{norm(c)[:60]}` is reached on a path that does not imply `{e} > 0`'
+                                 + (f' (path: {pc_show(bad[0][0])[:100]})' if bad else '') +
+                                 ': BufferedReader.peek() asserts a positive size, so a box without payload in a stored '
+                                 'fragment (an empty `free` box) ends the media request with AssertionError -> 500', c)
+    if n == 0:
+        rep.ok(rid, 'dashlive', 'no peek() outside the reader')
+
+
 def r16_13(rep: Report, idx: Index) -> None:
     """R16.13  a parser loop whose trip count is a 32 / 64 bit number read from the input reads, on every path of
     its body, something whose read fails at end of input - so an inflated count (a flipped bit, a size-field
@@ -1740,6 +1801,7 @@ def analyse(rep: Report) -> None:
     rep.rule('R16.12', 'loops that read until a sentinel end at the end of the input', floor=1)
     rep.rule('R16.13', 'parser loops driven by a 32-bit count from the input consume input that fails at its end', floor=3)
     rep.rule('R16.14', 'attributes read from an object built in the same handler function exist on every path', floor=3)
+    rep.rule('R16.16', 'a payload is peeked at only where its length is positive (BufferedReader.peek asserts it)', floor=1)
     rep.rule('R16.15', 'the invariants that make the range assertions of generate_media_segment unreachable hold (rule of C06)', floor=1)
     idx = Index(rep.repo)
     cg = CallGraph(idx)
@@ -1756,6 +1818,7 @@ def analyse(rep: Report) -> None:
     r16_12(rep)
     r16_13(rep, idx)
     r16_14(rep, idx)
+    r16_16(rep)
     from ..core import lift
     from . import c06 as _c06
 
